@@ -141,6 +141,9 @@ type ArgumentConditions []Condition
 
 func (a ArgumentConditions) Validate() []string {
 	var problems []string
+	if len(a) == 0 {
+		problems = append(problems, "at least one argument condition is required")
+	}
 	for _, condition := range a {
 		if condition.Argument < 0 || condition.Argument > 5 {
 			problems = append(problems, fmt.Sprintf("argument must be between 0 and 5 (inclusive), but is %v", condition.Argument))
